@@ -539,3 +539,23 @@ Lemma radix_literal_ge_2p63_fixed :
           /\ parse_numexpr_rf true sp "0x20000000000000000000000000000000000000000000000001"
              = PExpr (ENum (num_of_Z (2 ^ 197))).
 Proof. intros sp. repeat split; vm_compute; reflexivity. Qed.
+
+(* the explicitly signed token `+0x…` / `+0b…` (the grammar admits it; `-0x…` never reaches the arm: the
+   `-` is a prefix negation) *)
+Theorem plus_radix_literal_value_fixed : forall sp body c cl v,
+  remove_char "_" body = String c cl ->
+  (radix_val 16 (String c cl) 0 = Some v -> literal_value_rf true sp ("+0x" ++ body) = Some (num_of_Z v)) /\
+  (radix_val 2 (String c cl) 0 = Some v -> literal_value_rf true sp ("+0b" ++ body) = Some (num_of_Z v)).
+Proof.
+  intros sp body c cl v Hcl. split; intros Hv.
+  - change (literal_value_rf true sp ("+0x" ++ body))
+      with (match parse_radix_digits (remove_char "_" body) 16 with
+            | None => None | Some parsed => Some (nmul n_one parsed) end).
+    rewrite Hcl, (parse_radix_digits_correct 16 (String c cl) v (or_intror eq_refl) ltac:(discriminate) Hv).
+    now rewrite (nmul_one_l _ (num_of_Z_valid v)).
+  - change (literal_value_rf true sp ("+0b" ++ body))
+      with (match parse_radix_digits (remove_char "_" body) 2 with
+            | None => None | Some parsed => Some (nmul n_one parsed) end).
+    rewrite Hcl, (parse_radix_digits_correct 2 (String c cl) v (or_introl eq_refl) ltac:(discriminate) Hv).
+    now rewrite (nmul_one_l _ (num_of_Z_valid v)).
+Qed.
